@@ -247,6 +247,33 @@ def part_degenerate(ctx):
         ctx.stats.count('degenerate_cli')
 
 
+# line-scoped constructs in their typical surroundings, each run with LF, CR LF and CR line ends
+LINE_SHAPES = [
+    b'function hit(e)\n if (e.dead) return\n e.hp-=1\nend\n',
+    b'function f()\n if (a) return\n x=1\n if (b) return 1\n y=2\nend\n',
+    b'for i=1,3 do\n if (i==2) break\n n+=i\nend\n',
+    b'if (a) b=1 else c=2\nd=3\n',
+    b'if (a) b=1\nelse_=2\n',
+    b'?"hi"\nx=1\n?"a"\ny=2\n',
+    b'while k do\n if (k>3) goto done\n k+=1\nend\n::done::\n',
+    b'x=1 -- c\ny=2 // d\n--[[ e\n f ]]\nz=3\n',
+    b'if (a) if (b) c=1\nd=2\n',
+    b'function g()\n if (a) do return end\n if (b) return\nend\n',
+    b'local t={\n 1,\n 2,\n}\nif (#t>1) t[1]=0 t[2]=0\nprint(t)\n',
+]
+
+
+def part_line_ends(ctx):
+    for k, base in enumerate(LINE_SHAPES):
+        for nl, name in ((b'\n', 'lf'), (b'\r\n', 'crlf'), (b'\r', 'cr')):
+            src = base.replace(b'\n', nl)
+            for indent in (0, 2):
+                case = {'source': src, 'indent': indent, 'kind': 'valid'}
+                check_valid(src, indent, [], case, chunked=(nl != b'\r' and (k + indent) % 4 == 0))
+                ctx.stats.case(src + bytes((indent,)), True, {'line_scoped_shape': show(src, 60), 'line_ends': name} if k < 2 else None,
+                               ['line_shape', 'line_ends_' + name])
+
+
 # ---------------------------------------------------------------- clause (c): not fully parsed
 
 NEWER = [b'a |= 1', b'a &= 1', b'a ^^= b', b'a <<= 2', b'a >>= 2', b'a \\= 2', b'a ^= 2', b'?x,y', b'?x', b'?"a",1,2',
@@ -372,10 +399,10 @@ def part_newer(ctx):
 
 def parts(tier):
     if tier == 'quick':
-        return [('valid', part_valid, 8), ('degenerate', part_degenerate, 1), ('partial', part_partial, 5),
-                ('newer', part_newer, 1)]
-    return [('valid', part_valid, 10), ('degenerate', part_degenerate, 1), ('partial', part_partial, 4),
-            ('newer', part_newer, 1)]
+        return [('valid', part_valid, 8), ('degenerate', part_degenerate, 1), ('partial', part_partial, 4),
+                ('newer', part_newer, 1), ('line_ends', part_line_ends, 1)]
+    return [('valid', part_valid, 10), ('degenerate', part_degenerate, 1), ('partial', part_partial, 3),
+            ('newer', part_newer, 1), ('line_ends', part_line_ends, 1)]
 
 
 def replay(case):
